@@ -169,6 +169,53 @@ def builtin_names_doc():
     return doc_with(S, paths)
 
 
+def locals_doc(build_dir, known_ids):
+    """properties named after every identifier the MODEL templates bind or read in a class body / from_dict / to_dict / to_multipart
+    (regenerated by harness/translate/gen_names.py for the tree under test), except the names listed as capture findings; each next to
+    arrays of models / dates / nested arrays declared AFTER it (their loops run after the property's local was assigned)"""
+    import json, os
+    path = os.path.join(str(build_dir), "gen_names.json")
+    if not os.path.exists(path):
+        return None
+    d = json.load(open(path))
+    known = {i.rsplit("_", 1)[0] and i for i in known_ids}
+    names = []
+    for c in d.get("candidates", []):
+        scopes = [sc for sc in c["scopes"] if sc.startswith("model.")]
+        if not scopes or not c["name"].isidentifier() or c["name"].startswith("__"):
+            continue
+        if any(("capture_" + sc.replace(".", "_") + "_" + c["name"]) in known for sc in scopes):
+            continue
+        names.append(c["name"])
+    if not names:
+        return None
+    S = {"LEvent": obj({"at": {"type": "string", "format": "date"}, "n": {"type": "integer"}}, required=["n"])}
+    for i in range(0, len(names), 6):
+        props = {n: {"type": "string"} for n in names[i:i + 6]}
+        props.update({"zhistory": arr({"$ref": REF + "LEvent"}), "zwindows": arr(arr({"type": "string", "format": "date"})), "zwhen": {"type": "string", "format": "date-time"},
+                      "zmaybe": any_of({"$ref": REF + "LEvent"}, NULL)})
+        S["Locals%d" % (i // 6)] = obj(props, required=list(names[i:i + 6])[:2], addl={"type": "string", "format": "date"})
+    return doc_with(S)
+
+
+def enum_edge_doc():
+    """enum values that are not identifier material (sign / punctuation first, digits after punctuation, only punctuation) and twin
+    enums (two inline enums deriving one class name: equal, subset, superset, disjoint) - every listed value must stay decodable"""
+    S = {"Reaction": {"type": "string", "enum": ["+1", "-1", "laugh", "hooray"]},
+         "Marks": {"type": "string", "enum": ["@x", "#1", "1+", "$", "-", "a-b", "a_b2", "...", "?!"]},
+         "UsesEdge": obj({"reaction": {"$ref": REF + "Reaction"}, "mark": {"$ref": REF + "Marks"}, "inline": {"type": "string", "enum": ["+", "-", "+-", "10%"]}}, required=["reaction"]),
+         # twins: <Holder>.<prop> and <HolderProp-like>.<prop> derive the same class name
+         "Order": obj({"id": {"type": "integer"}, "itemStatus": {"type": "string", "enum": ["new", "packed", "shipped", "returned"]}}, required=["id"]),
+         "OrderItem": obj({"sku": {"type": "string"}, "status": {"type": "string", "enum": ["new", "shipped"]}}),
+         "Cart": obj({"id": {"type": "integer"}, "lineState": {"type": "string", "enum": ["open", "held"]}}, required=["id"]),
+         "CartLine": obj({"state": {"type": "string", "enum": ["open", "held", "gone"]}}),
+         "Box": obj({"lidKind": {"type": "string", "enum": ["flat", "dome"]}}),
+         "BoxLid": obj({"kind": {"type": "string", "enum": ["flat", "dome"]}})}
+    paths = {"/edge": {"get": {"operationId": "edge", "parameters": [{"name": "reaction", "in": "query", "schema": {"$ref": REF + "Reaction"}}],
+                               "responses": {"200": {"description": "d", "content": {"application/json": {"schema": {"$ref": REF + "UsesEdge"}}}}}}}}
+    return doc_with(S, paths)
+
+
 def reserved_doc():
     """classes whose derived MODULE name is a reserved word (module gets the `_` suffix) or whose class name shadows a name the
     templates use, each used in every position: model property, list item, union member, parameter in every location, body, response"""
